@@ -82,7 +82,14 @@ pub fn build(tree: u64, segs: &[Seg]) -> R {
     // tree 2 unions right-to-left
     if tree % 3 == 2 { for s in segs.iter().rev() { acc = one(s).union(&acc); } }
     else { for s in segs { acc = acc.union(&one(s)); } }
-    acc
+    // a finishing operation that does not change the set (different operation histories of equal ranges:
+    // results built with over-estimated capacities, by complement, by intersection)
+    match (tree / 3) % 4 {
+        1 => acc.union(&acc),
+        2 => acc.complement().complement(),
+        3 => acc.intersection(&acc),
+        _ => acc,
+    }
 }
 
 fn h64<T: Hash>(t: &T) -> (u64, u64) {
@@ -243,21 +250,21 @@ pub fn generate(out: &mut Out, rng: &mut Rng, thorough: bool, which: &str) {
     let vlist = |v: &[u32]| -> String { format!("({})", v.iter().map(|x| x.to_string()).collect::<Vec<_>>().join(" ")) };
     if which == "ranges" {
         for (idx, a) in rs.iter().enumerate() {
-            for t in 0..3 { run(out, format!("(r1 {} {} {})", k, t, segs_sx(a))); let _ = idx; }
+            for t in 0..12 { run(out, format!("(r1 {} {} {})", k, t, segs_sx(a))); let _ = idx; }
         }
         for (i, a) in rs.iter().enumerate() {
             for (j, b) in rs.iter().enumerate() {
-                let ta = (i + 2 * j) as u64 + rng.below(3);
-                let tb = (2 * i + j) as u64 + rng.below(3);
-                run(out, format!("(r2 {} {} {} {} {})", k, ta % 3, segs_sx(a), tb % 3, segs_sx(b)));
+                let ta = (i + 2 * j) as u64 + rng.below(12);
+                let tb = (2 * i + j) as u64 + rng.below(12);
+                run(out, format!("(r2 {} {} {} {} {})", k, ta % 12, segs_sx(a), tb % 12, segs_sx(b)));
             }
         }
         if thorough {
             let k4 = 4u32;
             let r4 = all_ranges(k4);
-            for a in r4.iter() { run(out, format!("(r1 {} {} {})", k4, rng.below(3), segs_sx(a))); }
+            for a in r4.iter() { run(out, format!("(r1 {} {} {})", k4, rng.below(12), segs_sx(a))); }
             for a in r4.iter() { for b in r4.iter() {
-                run(out, format!("(r2 {} {} {} {} {})", k4, rng.below(3), segs_sx(a), rng.below(3), segs_sx(b)));
+                run(out, format!("(r2 {} {} {} {} {})", k4, rng.below(12), segs_sx(a), rng.below(12), segs_sx(b)));
             } }
         }
     } else if which == "rangeord" {
@@ -274,7 +281,7 @@ pub fn generate(out: &mut Out, rng: &mut Rng, thorough: bool, which: &str) {
             }
         }
         for (i, a) in rs.iter().enumerate() { for (j, b) in rs.iter().enumerate() {
-            run(out, format!("(r2 {} {} {} {} {})", k, (i % 3) as u64, segs_sx(a), ((j + 1) % 3) as u64, segs_sx(b)));
+            run(out, format!("(r2 {} {} {} {} {})", k, (i % 12) as u64, segs_sx(a), ((j + 5) % 12) as u64, segs_sx(b)));
         } }
     } else {
         // "rangeq": queries
